@@ -7,6 +7,9 @@ K4  const definitions are bound in an order that does not depend on a hash seed 
 K5  min / max folds start from the identity of the constant's type
 K6  every const definition that is resolved (or recorded as a size) is entered into the table that the resolver of later
     const definitions reads, on every path of the definition loop (paths pruned by the definition's type)
+K8  sums / differences are reduced to the width of the constant's type inside the evaluators (min / max and later consts see the
+    wrapped value); the width handed over by compile_with_constants is the size of the definition's type
+K9  every error about a supplied constant carries party and identifier (known finding: InvalidLiteralType does not)
 K7  cross-reference: const-sized repeat literals are constrained exactly like literal-sized ones (C05-S2 rows for ArrayRepeatLiteralConst / ArrayConst)
 """
 import re
@@ -24,7 +27,7 @@ LEVEL_TEXT = (
     "constants, resolve_const_expr_*), the collecting loops have no early exit, and the error vector is sorted and returned "
     "before the first use. 'min/max/+/- in wrapping arithmetic of the constant's type': the three instantiations of the "
     "const evaluator contain no overflow trap, their Add/Sub arms go through wrapping_add/wrapping_sub, and the Min/Max "
-    "accumulators start from the type's MAX/MIN. Definition order must not follow hash order (K4). 'Consts act as substitution' has one clause visible in the shape of the "
+    "accumulators start from the type's MAX/MIN; the result of every Add/Sub node passes, together with the width parameter, through a reducing call before it is returned, and the callers pass size_in_bits_for_defs of the definition's type or the width of usize (K8). Every error built for a supplied constant carries party and identifier (K9; InvalidLiteralType does not: known finding). Definition order must not follow hash order (K4). 'Consts act as substitution' has one clause visible in the shape of the "
     "definition loops: a resolved definition must be entered into the table the later definitions are resolved against, on every "
     "path (K6; found a genuine defect: only usize consts were entered). Not decided: equivalence "
     "with literal substitution for all programs and inputs (that is C01's question), array sizes and trip counts following "
@@ -204,6 +207,110 @@ def rule_k3(ctx):
                 res.bad(Finding("K3", fid, "%s arm without %s" % (variant, want), "ConstExprEnum::%s is not evaluated with %s" % (variant, want), body.term(w[-1])["sp"]))
             else:
                 res.ok({"function": fid, "arm": variant, "verdict": want})
+    return res
+
+
+def rule_k8(ctx):
+    """'wrapping arithmetic of the constant's type': the evaluators compute in usize / u64 / i64; the result of every Add / Sub
+    node has to be reduced to the width of the constant's type before min / max (or a later constant) sees it, and the width the
+    callers hand over has to be the one of the definition's type."""
+    res = RuleResult("K8", "sums and differences of const expressions are reduced to the width of the constant's type")
+    for fid in RESOLVERS:
+        if fid not in ctx.fns:
+            raise AnchorMissing("%s not found" % fid)
+        body = ctx.body(fid)
+        width_args = [l for l in range(1, body.arg_count + 1) if body.locals[l]["ty"] in ("usize", "u32") and l >= 3]
+        for variant, want in (("Add", "wrapping_add"), ("Sub", "wrapping_sub")):
+            succ = body.pruned_succ({(("arg", 1), ("0",)): variant})
+            region = body.reachable([0], succ=succ)
+            wraps = [b for b in region if body.term(b)["k"] == "call" and mir.last_seg(mir.callee(body.term(b)) or "") == want and not body.blocks[b]["cleanup"]]
+            if not wraps:
+                continue        # K3 reports it
+            if not width_args:
+                res.bad(Finding("K8", fid, "%s result keeps the evaluator's width" % variant,
+                                "the evaluator does not know the width of the constant's type: `max(X + Y, 127u8)` with 255, 1 compares 256 (not 0) with 127", body.term(wraps[0])["sp"]))
+                continue
+            for wb in wraps:
+                d = body.term(wb)["dest"]["l"]
+                # the calls / operations in the arm that take the sum together with the width parameter
+                reducers = []
+                for b in region:
+                    t = body.term(b)
+                    if t["k"] == "call" and b != wb and not body.blocks[b]["cleanup"]:
+                        srcs = [set(r for (r, p) in body.trace_operand(a)) for a in t["args"]]
+                        has_sum = any(("call", wb, mir.callee(body.term(wb))) in sset for sset in srcs)
+                        has_width = any(any(r == ("arg", w) for w in width_args) for sset in srcs for r in sset)
+                        if has_sum and has_width:
+                            reducers.append(b)
+                raw = ("call", wb, mir.callee(body.term(wb)))
+                ret_from_reducer, raw_returned = False, False
+                for b in region:
+                    if body.blocks[b]["cleanup"]:
+                        continue
+                    t = body.term(b)
+                    if t["k"] == "call" and t["dest"]["l"] == 0 and not t["dest"]["p"]:
+                        if b in reducers:
+                            ret_from_reducer = True
+                        elif b == wb:
+                            raw_returned = True
+                    for st in body.blocks[b]["stmts"]:
+                        if st["k"] == "assign" and st["place"]["l"] == 0 and not st["place"]["p"] and st["rv"]["k"] == "use" and st["rv"]["op"]["k"] in ("copy", "move"):
+                            srcs = {r for (r, p) in body.trace_operand(st["rv"]["op"])}
+                            if any(r[0] == "call" and r[1] in reducers for r in srcs):
+                                ret_from_reducer = True
+                            if raw in srcs:
+                                raw_returned = True
+                if reducers and ret_from_reducer and not raw_returned:
+                    res.ok({"function": fid, "arm": variant, "verdict": "the sum passes a reduction that takes the width parameter before it is returned"})
+                else:
+                    res.bad(Finding("K8", fid, "%s result keeps the evaluator's width" % variant,
+                                    "the result of %s is returned without being reduced to the width of the constant's type: `max(X + Y, 127u8)` with 255, 1 compares 256 (not 0) with 127; "
+                                    "a later const sees the unreduced value" % want, body.term(wb)["sp"]))
+    # the callers in compile_with_constants: the width is the size of the definition's type (or the width of usize for sizes)
+    f, body = _cwc(ctx)
+    n = 0
+    for b, t in body.calls():
+        cal = mir.callee(t) or ""
+        if cal in RESOLVERS and not body.blocks[b]["cleanup"] and len(t["args"]) >= 3:
+            n += 1
+            w = t["args"][2]
+            if w["k"] == "const":
+                okw = w.get("val") == 32
+                how = "the constant %s" % w.get("val")
+            else:
+                src = body.deep_sources(w, 2)
+                okw = any(r[0] == "call" and mir.last_seg(str(r[2])) == "size_in_bits_for_defs" for (r, p) in src)
+                how = "size_in_bits_for_defs of the definition's type"
+            if okw:
+                res.ok({"call": "line %d" % t["sp"][1], "width": how})
+            else:
+                res.bad(Finding("K8", f["id"], "width handed to the const evaluator is not the one of the definition's type",
+                                "the width argument is neither the size in bits of the definition's type nor the width of usize", t["sp"]))
+    if n < 4 and all(len(ctx.body(fid).locals) and ctx.body(fid).arg_count >= 3 for fid in RESOLVERS):
+        raise AnchorMissing("K8: expected at least 4 calls of the const evaluators in compile_with_constants, found %d" % n)
+    return res
+
+
+def rule_k9(ctx):
+    """'returns an error that names every such constant': every error built while the supplied constants are collected carries
+    the party and the identifier of the constant it is about."""
+    res = RuleResult("K9", "errors about a supplied constant name the constant (party and identifier)")
+    f, body = _cwc(ctx)
+    errs = _err_blocks(body)
+    seen = 0
+    for variant in ("MissingConstant", "InvalidLiteralType"):
+        for (b, sp) in errs.get(variant, []):
+            seen += 1
+            st = [x for x in body.blocks[b]["stmts"] if x["k"] == "assign" and x["rv"]["k"] == "aggregate" and x["rv"].get("variant") == variant][0]
+            strings = [o for o in st["rv"]["ops"] if o.get("k") in ("copy", "move") and "String" in o["place"]["ty"]]
+            if len(strings) >= 2:
+                res.ok({"error": variant, "line": sp[1], "verdict": "carries party and identifier"})
+            else:
+                res.bad(Finding("K9", f["id"], "%s does not name the constant" % variant,
+                                "the error carries the literal and the expected type but neither the party nor the identifier: two parties that supply the same wrong literal "
+                                "produce two identical errors and the caller cannot tell which constant is meant", sp))
+    if seen < 3:
+        raise AnchorMissing("K9: expected the MissingConstant / InvalidLiteralType sites of compile_with_constants (at least 3), found %d" % seen)
     return res
 
 
@@ -397,4 +504,4 @@ def rule_k7(ctx):
 
 
 def run(ctx):
-    return ctx.run_rules([rule_k1, rule_k2, rule_k3, rule_k4, rule_k5, rule_k6, rule_k7])
+    return ctx.run_rules([rule_k1, rule_k2, rule_k3, rule_k4, rule_k5, rule_k6, rule_k7, rule_k8, rule_k9])
